@@ -230,6 +230,8 @@ func (w *srvWorld) classBody(class string) (string, []byte, *big.Int) {
 			return "POST", full[:k], nil
 		case "trailing":
 			return "POST", append(full, []byte(" x")...), nil
+		case "huge":
+			return "POST", bytes.Repeat([]byte("{\"a\":"), 3<<20), nil
 		case "whitespace-padded":
 			return "POST", append(append(bytes.Repeat([]byte(" \n"), 200000), full...), bytes.Repeat([]byte(" "), 1000)...), d.hash
 		}
